@@ -140,6 +140,8 @@ def _pf_items(tier):
     items = [(tier, (), 0)]
     for pre in evs:
         items.append((tier, (pre,), depth - 1))
+    for pre in c03.pf_alphabet('large'):
+        items.append(('large', (pre,), 2))       # lots of a million with residuals of a few units
     return items
 
 
